@@ -99,6 +99,18 @@ def commit_last(src, header_re, dest, what):
     return ok and len(early) >= 1, ln
 
 
+def commit_guarded(src, typ, what):
+    """building-block readers of src/Utils/IO.cpp: the destination parameter is written exactly once, under `if (is)`"""
+    m = X.find1(r'std\s*::\s*istream\s*&\s*read\s*\(\s*std\s*::\s*istream\s*&\s*is\s*,\s*' + typ + r'\s*&\s*(\w+)\s*\)\s*\{', src, what, re.S)
+    dest = m.group(1)
+    body = block_after(src, m.end() - 1)
+    writes = [w.start() for w in re.finditer(r'(?<![\w.])' + dest + r'\s*(?:=(?!=)|\.\s*(?:setFromTriplets|swap|resize|setZero|fill|coeffRef|insert)\s*\()', body)]
+    writes += [w.start() for w in re.finditer(r'(?<![\w.])' + dest + r'\s*[\[(][^;]*[\])]\s*=(?!=)', body)]
+    guarded = [w.start() for w in re.finditer(r'if\s*\(\s*is\s*\)\s*' + dest + r'\s*(?:=(?!=)|\.\s*setFromTriplets\s*\()', body)]
+    passes = re.search(r'\bis\s*>>\s*' + dest + r'\b|\bread\s*\(\s*is\s*,\s*' + dest + r'\b', body)
+    return len(writes) == 1 and len(guarded) == 1 and not passes, X.lineno(src, m.start())
+
+
 def gen_ioprec():
     u = X.strip_comments(X.read(UTILS))
     mdp = X.strip_comments(X.read(MDPIO))
@@ -136,6 +148,9 @@ def gen_ioprec():
     for typ in ('Model', 'SparseModel'):
         ok, ln = commit_last(phpp, r'std\s*::\s*istream\s*&\s*operator>>\s*\(\s*std\s*::\s*istream\s*&\s*is\s*,\s*' + typ + r'\s*<\s*M\s*>\s*&\s*m\s*\)\s*\{', 'm', f'operator>>(is, POMDP::{typ}<M>)')
         commits.append((f'POMDP::{typ}<M>', POMDPHPP, ln, ok))
+    for typ in ('Vector', 'Matrix2D', 'SparseMatrix2D', 'Matrix3D', 'SparseMatrix3D', 'Table2D', 'SparseTable2D', 'Table3D', 'SparseTable3D'):
+        ok, ln = commit_guarded(u, typ, f'read(is, {typ}&)')
+        commits.append((f'read({typ})', UTILS, ln, ok))
     b = lambda x: 'true' if x else 'false'
     out = ['/- GENERATED by tools/extract_c17.py from the library source — do not edit. -/', 'namespace AITB.Gen.IOPrec', '',
            f'/-- {UTILS}:{l1} — precision in force in write(os, double) -/', f'def scalar : Nat := {scalar}',
